@@ -529,6 +529,7 @@ type Contract struct {
 	Modifies []string // heap names / ghost names / "nothing" ; nil means unspecified (=> everything for callers if trusted)
 	ModSet   bool
 	NoPanic  bool
+	LockOnly bool // synthetic lock-discipline sweep contract (C25): only guard obligations and lock preconditions count
 	SplitRet bool // "splitreturns": one postcondition obligation per return point (as done automatically for > 6 returns)
 	Trusted  bool // contract assumed, body not verified
 	Inline   bool // always inline, ignoring size limit
@@ -600,6 +601,14 @@ type ContractFile struct {
 	Ghosts    []*GhostDecl
 	Lemmas    []*Lemma
 	Axioms    []*Axiom
+	Guards    []*GuardDecl
+}
+
+// GuardDecl: field Type.Field of package Pkg may only be accessed with the mutex Type.Lock held.
+type GuardDecl struct {
+	Pkg, Type, Field, Lock string
+	File                   string
+	Line                   int
 }
 
 func parseClause(rest string, file string, line int) (*Clause, error) {
@@ -911,6 +920,21 @@ func ParseContractText(pkg, file, text string) (*ContractFile, error) {
 				return nil, err
 			}
 			cf.Axioms = append(cf.Axioms, &Axiom{pkg, c})
+		case "guarded":
+			// guarded T.f, T.g by lockfield   (lock discipline, C25: fields of T accessed only with T.lockfield held)
+			k := strings.LastIndex(rest, " by ")
+			if k < 0 {
+				return nil, fmt.Errorf("%s:%d: guarded needs 'by <lock field>'", file, ln)
+			}
+			lock := strings.TrimSpace(rest[k+4:])
+			for _, tf := range strings.Split(rest[:k], ",") {
+				tf = strings.TrimSpace(tf)
+				d := strings.Index(tf, ".")
+				if d <= 0 {
+					return nil, fmt.Errorf("%s:%d: guarded expects Type.field", file, ln)
+				}
+				cf.Guards = append(cf.Guards, &GuardDecl{Pkg: pkg, Type: tf[:d], Field: tf[d+1:], Lock: lock, File: file, Line: ln})
+			}
 		default:
 			return nil, fmt.Errorf("%s:%d: unknown keyword %q", file, ln, kw)
 		}
